@@ -444,6 +444,9 @@ func (h *harness) monIncl(th *treeHead, sctBytes []byte, e *sunlight.LogEntry, p
 	}
 	x := struct{ LeafIndex int64 }{li}
 	t := lg.truth[x.LeafIndex]
+	if !t.RFC6962ArchivalLeaf && t.LeafIndex != li {
+		return fmt.Sprintf("FAILS:confirmed an SCT naming leaf index %d although the authentic leaf at that position carries leaf index %d", li, t.LeafIndex)
+	}
 	if uint64(t.Timestamp) != s.Timestamp {
 		return fmt.Sprintf("FAILS:confirmed an SCT whose timestamp %d is not the leaf's %d", s.Timestamp, t.Timestamp)
 	}
@@ -643,7 +646,7 @@ func (h *harness) ckptCases() {
 func (h *harness) synthetic() *treeHead {
 	lg := &fixtureLog{sid: "S", name: "example.com/synthetic", key: h.A.key, keyID: h.A.keyID, spki: h.A.spki,
 		logID: h.A.logID, store: map[string][]byte{}}
-	n := 6
+	n := 7 // position 6 holds a non-archival leaf whose authenticated leaf_index is 3 (an entry sequenced twice)
 	var tile []byte
 	var stored []tlog.Hash
 	hr := tlog.HashReaderFunc(func(idx []int64) ([]tlog.Hash, error) {
@@ -662,6 +665,10 @@ func (h *harness) synthetic() *treeHead {
 		}
 		if i == 2 || i == 4 {
 			e.RFC6962ArchivalLeaf, e.LeafIndex = true, 0
+		}
+		if i == 6 {
+			c := *lg.truth[3]
+			e = &c
 		}
 		lg.truth = append(lg.truth, e)
 		tile = sunlight.AppendTileLeaf(tile, e)
@@ -685,7 +692,7 @@ func (h *harness) synthetic() *treeHead {
 	lg.store[dataPath(0, n)] = tile
 	h.stores["S"] = lg.store
 	h.dumpStore(lg)
-	th := &treeHead{tid: "S6", lg: lg, tree: tlog.Tree{N: int64(n), Hash: root}}
+	th := &treeHead{tid: "S7", lg: lg, tree: tlog.Tree{N: int64(n), Hash: root}}
 	h.emit("tree|%s|%s|%d|%d|=>|%x", th.tid, lg.sid, lg.keyID, n, root[:])
 	return th
 }
@@ -693,10 +700,10 @@ func (h *harness) synthetic() *treeHead {
 func (h *harness) archivalCases() {
 	th := h.synthetic()
 	for _, allow := range []bool{false, true} {
-		for _, s := range []int64{0, 2, 3, 5} {
+		for _, s := range []int64{0, 2, 3, 5, 6} {
 			h.runEntries(th, allow, s%2 == 0, s, "archival-leaves", nil)
 		}
-		for i := int64(0); i < 6; i++ {
+		for i := int64(0); i < 7; i++ {
 			h.runEntry(th, allow, i, "archival-leaves", nil)
 		}
 		for _, i := range []int64{1, 2, 4} {
@@ -712,6 +719,16 @@ func (h *harness) archivalCases() {
 			s.Extensions = ext
 			sc.sct, _ = tls.Marshal(s)
 			sc.label = "sct-of-archival-4-naming-archival-2"
+			h.runIncl(th, allow, sc)
+		}
+		// position 6 holds a copy of leaf 3 (authenticated leaf_index 3): the SCT of leaf 3 rewritten to name position 6
+		sc = h.sctCases(th, 3)[0]
+		ext6, _ := sunlight.MarshalExtensions(sunlight.Extensions{LeafIndex: 6})
+		var s6 ct.SignedCertificateTimestamp
+		if _, err := tls.Unmarshal(sc.sct, &s6); err == nil {
+			s6.Extensions = ext6
+			sc.sct, _ = tls.Marshal(s6)
+			sc.label = "sct-of-leaf-3-naming-position-6"
 			h.runIncl(th, allow, sc)
 		}
 	}
